@@ -17,7 +17,7 @@ META = {
              "non-trivial = (by the model) the last-ending operation of some (sub-)circuit is not a relation leaf or the earliest-starting one is not a head"),
     "assumptions": ["reference model qv/model.py; span computed from the library's own reported operation times at the same step as well"],
     "floors": {
-        "quick": {"growth_first_add_rereads": 6000, "growth_of_empty_block_rereads": 500, "durations_compared": 40000, "growth_rereads": 3000, "forms_compared": 20000, "relations_to_former_blocks_checked": 300, "group_follower_checks": 2000, "registry_reassignments": 10000, "follower_checks": 5000, "empty_circuits": 1000, "label_non-leaf-last-end": 1000, "label_early-start": 3000, "label_nested-block-early-start": 500},
+        "quick": {"rereads_after_temporary_override": 12000, "growth_first_add_rereads": 6000, "growth_of_empty_block_rereads": 500, "durations_compared": 40000, "growth_rereads": 3000, "forms_compared": 20000, "relations_to_former_blocks_checked": 300, "group_follower_checks": 2000, "registry_reassignments": 10000, "follower_checks": 5000, "empty_circuits": 1000, "label_non-leaf-last-end": 1000, "label_early-start": 3000, "label_nested-block-early-start": 500},
         "thorough": {"durations_compared": 500000, "follower_checks": 50000, "empty_circuits": 10000},
     },
 }
@@ -117,6 +117,24 @@ def check_program(prog: Dict[str, Any], acc: Acc, flags=None):
             if raw[k][0] < last - TOL:
                 acc.finding("follower-overlaps-block", "an operation FOLLOWED_BY a sub-circuit starts before all of the sub-circuit's operations have ended",
                             case, {"op": type(op).__name__, "start": raw[k][0], "content_end": last})
+        # ---- another duration assignment for a while: the library's own temporary override is entered with other gate durations, duration
+        #      and times are read under it, and read again after it ended (durations back to the outer settings): what is reported then
+        #      must be the memo-free evaluation again (seeded changes C04-r14 / C07-r14: the override no longer cleared the memo on exit)
+        if ops:
+            from qce_circuit.structure.registry_duration import temporary_override_get_registry_at, GlobalRegistryKey
+            other = {GlobalRegistryKey[k]: float(v) * f for (k, v), f in zip(sorted(S.glob.items()), (0.5, 2.0, 0.25, 3.0))}
+            with temporary_override_get_registry_at(other):
+                snap.raw_value(lambda: float(top.duration))
+                snap.raw_times(ops)
+            acc.count("rereads_after_temporary_override")
+            rep_o = snap.raw_value(lambda: float(top.duration))
+            shd_o = snap.shadow_value(lambda: float(top.duration))
+            o_raw, o_sh = snap.raw_times(ops), snap.shadow_times(ops)
+            if abs(rep_o - shd_o) > TOL or any(abs(a[0] - b[0]) > TOL or abs(a[1] - b[1]) > TOL for a, b in zip(o_raw, o_sh)):
+                acc.finding("stale-memo/after-override", "duration / times reported after a temporary duration override ended differ from the memo-free evaluation",
+                            case, {"duration_reported": rep_o, "duration_memo_free": shd_o})
+            elif any(abs(a[0] - b[0]) > TOL or abs(a[1] - b[1]) > TOL for a, b in zip(o_raw, raw)):
+                acc.finding("duration/changed-by-override", "times reported after a temporary duration override ended differ from those reported before it", case, None)
         # ---- registry durations (re-)assigned after the reads (some keys for the first time): duration and the times of the
         #      operations listed before, read again without a listing in between
         if prog.get("settings", {}).get("reg") is not None:
